@@ -2,7 +2,7 @@
    rings runs through exactly one ring, once: it is that ring from some start vertex, forwards or
    backwards.  With conservation of edges this gives join_closes_rings. *)
 From Coq Require Import ZArith List Bool Lia Arith Permutation.
-From Verif Require Import Geo.Model Geo.JoinProofs Geo.Conserve Geo.Closes Geo.Cut Geo.Edges.
+From Verif Require Import Geo.Model Geo.JoinProofs Geo.Conserve Geo.Closes Geo.Cut Geo.Edges Geo.Annotate.
 Import ListNotations.
 Open Scope nat_scope.
 
@@ -187,3 +187,203 @@ Section Forward.
           f_equal. unfold n in *. lia.
   Qed.
 End Forward.
+
+(* ---------------------------------------------------------------- ring edges and steps *)
+Definition ringE (r : line) : list (point * point) := line_edges (close_ring r).
+
+Lemma pnth_in : forall i (r : line), i < length r -> In (pnth i r) r.
+Proof. intros i r H. unfold pnth. apply nth_In. exact H. Qed.
+
+Lemma step_in_l : forall r u v, step r u v -> In u r.
+Proof. intros r u v (i & Hi & -> & _). apply pnth_in. exact Hi. Qed.
+Lemma step_in_r : forall r u v, step r u v -> In v r.
+Proof. intros r u v (i & Hi & _ & ->). apply pnth_in. apply si_lt. exact Hi. Qed.
+
+Lemma close_ring_length : forall r, length (close_ring r) = S (length r).
+Proof. intros r. unfold close_ring. rewrite app_length. simpl. lia. Qed.
+
+Lemma ringE_step : forall r u v, In (u, v) (ringE r) -> step r u v.
+Proof.
+  intros r u v H. unfold ringE in H.
+  apply (In_nth _ _ (origin, origin)) in H. destruct H as (j & Hj & E).
+  rewrite line_edges_length, close_ring_length in Hj. simpl in Hj.
+  rewrite line_edges_nth in E by (rewrite close_ring_length; lia).
+  inversion E as [[Eu Ev]]. exists j. split; [exact Hj|]. unfold close_ring, pnth. split.
+  - rewrite app_nth1 by exact Hj. reflexivity.
+  - unfold si. destruct (Nat.eqb_spec (S j) (length r)) as [E1|E1].
+    + rewrite app_nth2 by lia. rewrite E1, Nat.sub_diag. simpl. destruct r; reflexivity.
+    + rewrite app_nth1 by lia. reflexivity.
+Qed.
+
+Lemma disjoint_rings : forall (R : list line) r1 r2 u, NoDup (concat R) ->
+  In r1 R -> In r2 R -> In u r1 -> In u r2 -> r1 = r2.
+Proof.
+  induction R as [|a R IH]; intros r1 r2 u Hnd H1 H2 U1 U2; [contradiction|].
+  simpl in Hnd. destruct H1 as [->|H1], H2 as [->|H2].
+  - reflexivity.
+  - exfalso. apply (NoDup_app_disj _ _ u Hnd U1). apply in_concat. exists r2. split; assumption.
+  - exfalso. apply (NoDup_app_disj _ _ u Hnd U2). apply in_concat. exists r1. split; assumption.
+  - apply (IH r1 r2 u); try assumption. eapply NoDup_app_r. exact Hnd.
+Qed.
+
+(* an edge of the walk that is (undirected) a ring edge and touches r is a step of r *)
+Lemma adjacent_in_ring : forall (R : list line) r u v, NoDup (concat R) -> In r R -> In u r ->
+  In (uedge (u, v)) (map uedge (flat_map ringE R)) -> step r u v \/ step r v u.
+Proof.
+  intros R r u v Hnd Hr Hu H. apply in_map_iff in H. destruct H as ([a b] & He & Hin).
+  apply in_flat_map in Hin. destruct Hin as (r2 & Hr2 & Hab). apply ringE_step in Hab.
+  destruct (uedge_eq_cases _ _ He) as [E|E].
+  - inversion E; subst a b.
+    assert (r2 = r) by (apply (disjoint_rings R r2 r u Hnd Hr2 Hr); [eapply step_in_l; exact Hab|exact Hu]).
+    subst r2. left. exact Hab.
+  - unfold swap in E. simpl in E. inversion E; subst a b.
+    assert (r2 = r) by (apply (disjoint_rings R r2 r u Hnd Hr2 Hr); [eapply step_in_r; exact Hab|exact Hu]).
+    subst r2. right. exact Hab.
+Qed.
+
+(* ---------------------------------------------------------------- ring edges are distinct *)
+Lemma map_fst_line_edges : forall (r : line) x, map fst (line_edges (r ++ [x])) = r.
+Proof.
+  induction r as [|a r IH]; intros x; [reflexivity|].
+  destruct r as [|b r']; [reflexivity|].
+  change ((a :: b :: r') ++ [x]) with (a :: (b :: r') ++ [x]).
+  change (line_edges (a :: (b :: r') ++ [x])) with ((a, b) :: line_edges ((b :: r') ++ [x])).
+  rewrite map_cons, IH. reflexivity.
+Qed.
+
+Lemma map_fst_ringE_all : forall R : list line, map fst (flat_map ringE R) = concat R.
+Proof.
+  induction R as [|r R IH]; [reflexivity|]. simpl. rewrite map_app, IH. f_equal.
+  unfold ringE, close_ring. apply map_fst_line_edges.
+Qed.
+
+Lemma NoDup_map_inj_on : forall {A B} (f : A -> B) l,
+  NoDup l -> (forall x y, In x l -> In y l -> f x = f y -> x = y) -> NoDup (map f l).
+Proof.
+  intros A B f l H. induction H as [|a l Hn H IH]; intros Hinj; [constructor|].
+  simpl. constructor.
+  - intro Hin. apply in_map_iff in Hin. destruct Hin as (y & Ey & Hy).
+    assert (y = a) by (apply Hinj; [right; exact Hy|left; reflexivity|exact Ey]). subst y. contradiction.
+  - apply IH. intros x y Hx Hy. apply Hinj; right; assumption.
+Qed.
+
+Lemma ring_uedges_nodup : forall R : list line, NoDup (concat R) ->
+  Forall (fun r => 3 <= length r) R -> NoDup (map uedge (flat_map ringE R)).
+Proof.
+  intros R Hnd Hlen. apply NoDup_map_inj_on.
+  - apply (NoDup_map_inv fst). rewrite map_fst_ringE_all. exact Hnd.
+  - intros [a b] [c d] Hx Hy E.
+    destruct (uedge_eq_cases _ _ E) as [E'|E']; [exact E'|exfalso].
+    unfold swap in E'. simpl in E'. inversion E'; subst c d.
+    apply in_flat_map in Hx. destruct Hx as (r1 & Hr1 & H1). apply ringE_step in H1.
+    apply in_flat_map in Hy. destruct Hy as (r2 & Hr2 & H2). apply ringE_step in H2.
+    assert (r1 = r2) by (apply (disjoint_rings R r1 r2 a Hnd Hr1 Hr2); [eapply step_in_l; exact H1|eapply step_in_r; exact H2]).
+    subst r2. rewrite Forall_forall in Hlen.
+    apply (step_irrefl2 r1 a b); try assumption.
+    + pose proof (map_fst_ringE_all R) as _. 
+      assert (Hsub : NoDup (concat R) -> In r1 R -> NoDup r1).
+      { clear. induction R as [|x R IH]; intros Hn Hin; [contradiction|]. simpl in Hn.
+        destruct Hin as [->|Hin]; [eapply NoDup_app_l; exact Hn|apply IH; [eapply NoDup_app_r; exact Hn|exact Hin]]. }
+      apply Hsub; assumption.
+    + apply Hlen. exact Hr1.
+Qed.
+
+Lemma ring_nodup : forall (R : list line) r, NoDup (concat R) -> In r R -> NoDup r.
+Proof.
+  induction R as [|x R IH]; intros r Hn Hin; [contradiction|]. simpl in Hn.
+  destruct Hin as [->|Hin]; [eapply NoDup_app_l; exact Hn|apply IH; [eapply NoDup_app_r; exact Hn|exact Hin]].
+Qed.
+
+(* ---------------------------------------------------------------- a closed trail is one ring *)
+Lemma pnth_rev : forall (L : line) m j, length L = S m -> j <= m -> pnth j (rev L) = pnth (m - j) L.
+Proof.
+  intros L m j Hl Hj. unfold pnth. rewrite rev_nth by lia. f_equal. lia.
+Qed.
+
+Lemma uedges_rev_nodup : forall L, NoDup (map uedge (line_edges L)) ->
+  NoDup (map uedge (line_edges (rev L))).
+Proof.
+  intros L H. rewrite line_edges_rev, map_rev, map_map.
+  apply NoDup_rev. erewrite map_ext; [exact H|]. intros e. apply uedge_swap.
+Qed.
+
+Section Trail.
+  Variable R : list line.
+  Hypothesis HndR : NoDup (concat R).
+  Hypothesis HlenR : Forall (fun r => 3 <= length r) R.
+  Variable r : line.
+  Hypothesis Hr : In r R.
+
+  Variable L : line.
+  Variable m : nat.
+  Hypothesis Hlen : length L = S m.
+  Hypothesis Hm : 1 <= m.
+  Hypothesis Hclosed : pnth 0 L = pnth m L.
+  Hypothesis Hedges : NoDup (map uedge (line_edges L)).
+  Hypothesis Hadj : forall e, In e (line_edges L) -> In (uedge e) (map uedge (flat_map ringE R)).
+  Hypothesis Hstart : In (pnth 0 L) r.
+
+  Let Hndr : NoDup r := ring_nodup R r HndR Hr.
+  Let Hn : 3 <= length r := proj1 (Forall_forall _ _) HlenR r Hr.
+
+  Lemma trail_edge_in : forall j, j < m -> In (pnth j L, pnth (S j) L) (line_edges L).
+  Proof.
+    intros j Hj. rewrite <- (line_edges_nth L j) by lia. apply nth_In.
+    rewrite line_edges_length, Hlen. simpl. exact Hj.
+  Qed.
+
+  Lemma trail_adjacent : forall j, j < m ->
+    In (pnth j L) r /\ (step r (pnth j L) (pnth (S j) L) \/ step r (pnth (S j) L) (pnth j L)).
+  Proof.
+    induction j as [|j IH]; intros Hj.
+    - split; [exact Hstart|].
+      apply (adjacent_in_ring R r _ _ HndR Hr Hstart). apply Hadj. apply trail_edge_in. exact Hj.
+    - destruct (IH ltac:(lia)) as [_ Hs].
+      assert (Hin : In (pnth (S j) L) r).
+      { destruct Hs as [Hs|Hs]; [eapply step_in_r; exact Hs|eapply step_in_l; exact Hs]. }
+      split; [exact Hin|].
+      apply (adjacent_in_ring R r _ _ HndR Hr Hin). apply Hadj. apply trail_edge_in. exact Hj.
+  Qed.
+
+  Lemma no_backtrack : forall j, S j < m -> pnth (S (S j)) L <> pnth j L.
+  Proof.
+    intros j Hj E.
+    assert (Eq : nth j (map uedge (line_edges L)) (uedge (origin, origin)) =
+                 nth (S j) (map uedge (line_edges L)) (uedge (origin, origin))).
+    { rewrite !map_nth, !line_edges_nth by lia. rewrite E.
+      rewrite <- (uedge_swap (pnth (S j) L, pnth j L)). reflexivity. }
+    apply (proj1 (NoDup_nth _ _) Hedges) in Eq; [lia| |];
+      rewrite map_length, line_edges_length, Hlen; simpl; lia.
+  Qed.
+
+  Lemma all_forward : step r (pnth 0 L) (pnth 1 L) -> forall j, j < m -> step r (pnth j L) (pnth (S j) L).
+  Proof.
+    intros H0. induction j as [|j IH]; intros Hj; [exact H0|].
+    destruct (trail_adjacent (S j) Hj) as [_ [Hs|Hs]]; [exact Hs|exfalso].
+    apply (no_backtrack j Hj). eapply step_inj; [exact Hndr|exact Hs|apply IH; lia].
+  Qed.
+
+  Lemma all_backward : step r (pnth 1 L) (pnth 0 L) -> forall j, j < m -> step r (pnth (S j) L) (pnth j L).
+  Proof.
+    intros H0. induction j as [|j IH]; intros Hj; [exact H0|].
+    destruct (trail_adjacent (S j) Hj) as [_ [Hs|Hs]]; [exfalso|exact Hs].
+    apply (no_backtrack j Hj). eapply step_fun; [exact Hndr|exact Hs|apply IH; lia].
+  Qed.
+
+  Theorem closed_trail_is_ring : exists s, s < length r /\
+    (L = close_ring (rot s r) \/ L = rev (close_ring (rot s r))).
+  Proof.
+    destruct (trail_adjacent 0 ltac:(lia)) as [_ [H0|H0]].
+    - destruct (forward_walk_is_ring r Hndr Hn L m Hlen Hm Hclosed (all_forward H0) Hedges) as (s & Hs & E).
+      exists s. split; [exact Hs|left; exact E].
+    - pose proof (all_backward H0) as Hb.
+      destruct (forward_walk_is_ring r Hndr Hn (rev L) m) as (s & Hs & E).
+      + rewrite rev_length. exact Hlen.
+      + exact Hm.
+      + rewrite !(pnth_rev L m) by (try exact Hlen; lia). rewrite Nat.sub_diag, Nat.sub_0_r. symmetry. exact Hclosed.
+      + intros j Hj. rewrite !(pnth_rev L m) by (try exact Hlen; lia).
+        replace (m - j) with (S (m - S j)) by lia. apply Hb. lia.
+      + apply uedges_rev_nodup. exact Hedges.
+      + exists s. split; [exact Hs|right]. rewrite <- E. symmetry. apply rev_involutive.
+  Qed.
+End Trail.
